@@ -59,8 +59,16 @@ pub async fn process_uplink_packet(
                     conn.reconnection.mark_success(&conn.label);
                 }
                 RegistrationEvent::RegErr => {
-                    conn.connected = false;
-                    conn.last_received = None;
+                    // The receiver rejected this link's registration: tear it
+                    // down like every other failure path (send error, timeout)
+                    // instead of only clearing two flags. A half-torn-down link
+                    // kept its phase, window, packet log and queue, so a REG3
+                    // arriving before the next housekeeping pass re-joined it
+                    // with stale accounting, and until then it still looked
+                    // schedulable. `mark_for_recovery` also clears `connected`
+                    // and `last_received` and makes the link immediately
+                    // eligible for the reconnect path.
+                    conn.mark_for_recovery();
                 }
                 RegistrationEvent::Reg2 => {}
             }
